@@ -23,11 +23,9 @@ def plan(tier, seed):
                                                                                   optional_element=oe), env=envv)
                 j["name"] += "[n=%d,list=%d,elem=%d]" % (n, ol, oe)
                 jobs.append(j)
-    try:
-        from . import schema_levels
-        jobs += schema_levels.jobs("C15", tier)
-    except ImportError:
-        pass
+    for h in ("h_levels", "h_list_shape", "h_map_shape"):
+        jobs.append(ch("C15", "vf/pyshim/h_schema.py", h, t, ["schema.SchemaHelper", "schema._is_list_like",
+                                                             "schema._is_map_like"]))
     extra = dict(
         explanation="The real record-assembly function cencoding._assemble_objects is lifted mechanically from the "
                     ".pyx (types stripped, C integer assignments wrapped to their width, memoryview indexing given the "
